@@ -77,7 +77,12 @@ func process2Map(obj map[string]any, mergeFrom *Document, mergeFromDocs []*Docum
 			return nil, err
 		}
 
-		return map[string]any{k2.(string): v2}, nil
+		k3, ok := k2.(string)
+		if !ok {
+			return nil, fmt.Errorf("%s: %T as map key: %w", k, k2, ErrInvalidType)
+		}
+
+		return map[string]any{k3: v2}, nil
 	})
 }
 
@@ -465,7 +470,12 @@ func process2RepeatObjMap(v map[string]any, mergeFrom *Document, mergeFromDocs [
 			return nil, err
 		}
 
-		ret[k2.(string)] = v2
+		k3, ok := k2.(string)
+		if !ok {
+			return nil, fmt.Errorf("%s: %T as map key: %w", k, k2, ErrInvalidType)
+		}
+
+		ret[k3] = v2
 	}
 
 	return ret, nil
